@@ -555,6 +555,7 @@ fn run_history(env: &mut Env, c: &Case, root: &Path, root_s: &str) -> Verdict {
                 Expect::Err(_) | Expect::TypeErr => "wrong-error",
                 _ => "should-be-refused",
             };
+            let cls = if matches!(op, Op::MkDirPath(a) if name_text(*a).is_empty()) { "empty-name-accepted" } else { cls };
             return Verdict::fail(format!("outcome:{label}:{cls}"), format!("{}: step {i}: {why}", what()));
         }
         // a refused operation and every query must leave the tree as predicted
@@ -568,7 +569,10 @@ fn run_history(env: &mut Env, c: &Case, root: &Path, root_s: &str) -> Verdict {
             let missing: Vec<&String> = after.keys().filter(|k| !now.contains_key(*k)).collect();
             let extra: Vec<&String> = now.keys().filter(|k| !after.contains_key(*k)).collect();
             let changed: Vec<&String> = after.keys().filter(|k| now.get(*k).is_some() && now.get(*k) != after.get(*k)).collect();
-            let cls = if !extra.is_empty() {
+            let onto_itself = matches!(op, Op::Copy(a, b) if name_text(*a) == name_text(*b));
+            let cls = if onto_itself && extra.is_empty() && missing.is_empty() {
+                "onto-itself-destroys-content"
+            } else if !extra.is_empty() {
                 "unexpected-entry"
             } else if !missing.is_empty() {
                 "entry-missing"
@@ -604,7 +608,7 @@ impl Prop for C48 {
     }
     fn run_shard(&self, cfg: &ShardCfg) -> ShardResult {
         let mut d = Driver::new(cfg, "C48");
-        let n = cfg.share(cfg.tier.pick(2_000, 100_000));
+        let n = cfg.share(cfg.tier.pick(4_000, 200_000));
         d.run("history", 0, n, 200, case_strategy(), &mk_env, &check);
         d.finish()
     }
